@@ -355,6 +355,12 @@ Proof.
   intros ch Hin. apply (chan_rel_frame rs); [intros; apply getk_clear_outbox | apply (R_chan _ _ _ _ HR); assumption].
 Qed.
 
+Lemma R_mono U n n' rs m : (n <= n')%N -> R U n rs m -> R U n' rs m.
+Proof.
+  intros Hn HR. constructor; [apply (R_chan _ _ _ _ HR)| |apply (R_cleanup _ _ _ _ HR)|apply (R_now _ _ _ _ HR)|apply (R_cache _ _ _ _ HR)].
+  intros ch c E. apply (chan_inv_mono n); [assumption | apply (R_inv _ _ _ _ HR ch c E)].
+Qed.
+
 Lemma parse_add_ok top epoch : (top < 18446744073709551616)%N ->
   parse_add_result (RArr [RInt (Z.of_N top); RBulk epoch; RBulk ""]) = MUpd top epoch false "" None.
 Proof.
@@ -617,6 +623,217 @@ Proof.
         destruct cur as [e|] eqn:Ek; [|lia]. apply (Hvbd (String kc key, e)). apply in_sfind. exact Ek.
 Qed.
 
+Lemma res_view_frame rs rs' rk o : (forall k, getk rs' k = getk rs k) -> res_view rs rk o -> res_view rs' rk o.
+Proof. intros F. unfold res_view. rewrite F. auto. Qed.
+
+Lemma R_update_idem U n n' rs m rs' m' c k oc' off ep exp :
+  keys_ok U -> res_ok P -> In c U -> In (c, k) P -> R U n rs m -> (n <= n')%N ->
+  frame (k_result c k :: chan_keys c) rs rs' ->
+  (forall ch, sfind ch (mm_chans m') = if String.eqb ch c then oc' else sfind ch (mm_chans m)) ->
+  chan_rel rs' c oc' -> (forall c', oc' = Some c' -> chan_inv n' c') ->
+  mm_idem m' = sput (idem_key c k) (off, ep, exp) (mm_idem m) -> mm_now m' = mm_now m ->
+  (0 < exp)%N -> (off < BOUND)%N -> res_view rs' (k_result c k) (Some (off, ep)) ->
+  R U n' rs' m'.
+Proof.
+  intros HK HP Hc HcP HR Hn [F _] Hch Hrel Hinv Hid Hnw Hexp Hoff Hres.
+  assert (Fc : forall ch key, In key (chan_keys ch) -> ch <> c -> In ch U -> getk rs' key = getk rs key).
+  { intros ch key Hk Hne Hin. apply F. intros [X|X].
+    - rewrite <- X in Hk. exact (k_result_not_chan _ _ _ Hk).
+    - exact (chan_keys_disjoint U ch c HK Hin Hc Hne key Hk X). }
+  constructor.
+  - intros ch Hin. rewrite Hch. destruct (String.eqb ch c) eqn:E.
+    + apply String.eqb_eq in E. subst. exact Hrel.
+    + apply String.eqb_neq in E. apply (chan_rel_frame rs); [|apply (R_chan _ _ _ _ HR); assumption].
+      intros key Hk. apply (Fc ch); assumption.
+  - intros ch c'. rewrite Hch. destruct (String.eqb ch c) eqn:E.
+    + apply Hinv.
+    + intros H. apply (chan_inv_mono n); [assumption|]. apply (R_inv _ _ _ _ HR ch). assumption.
+  - rewrite F; [apply (R_cleanup _ _ _ _ HR)|]. intros [X|X]; [symmetry in X; exact (k_result_cleanup _ _ X) | exact (k_cleanup_not_chan _ X)].
+  - rewrite Hnw. apply (R_now _ _ _ _ HR).
+  - intros ch' k' Hk'. unfold cache_rel. rewrite Hid.
+    destruct (String.eqb (idem_key ch' k') (idem_key c k)) eqn:E.
+    + apply String.eqb_eq in E. pose proof (P_idem _ HP (ch', k') (c, k) Hk' HcP E) as X. injection X as -> ->.
+      rewrite sfind_sput_same. split; [assumption|]. split; assumption.
+    + apply String.eqb_neq in E. rewrite sfind_sput_other by exact E.
+      assert (Hrk : k_result ch' k' <> k_result c k).
+      { intros X. apply (P_res _ HP (ch', k') (c, k) Hk' HcP) in X. injection X as -> ->. apply E. reflexivity. }
+      pose proof (R_cache _ _ _ _ HR ch' k' Hk') as Hc'. unfold cache_rel in Hc'.
+      assert (Fk : getk rs' (k_result ch' k') = getk rs (k_result ch' k')).
+      { apply F. intros [X|X]; [symmetry in X; contradiction | exact (k_result_not_chan _ _ _ X)]. }
+      destruct (sfind (idem_key ch' k') (mm_idem m)) as [[[o e] x]|]; [|rewrite Fk; exact Hc'].
+      destruct Hc' as (A & B & C). split; [assumption|]. split; [assumption|]. unfold res_view in *. rewrite Fk. exact C.
+Qed.
+
+Lemma step_publish_idem U n cf rs m ch key po nonce now_ :
+  cfg_ok cf = true -> keys_ok U -> In ch U -> R U n rs m -> (Z.of_N n < mc_size cf)%Z ->
+  popts_core key po = true -> mp_idem po <> "" -> (0 <= mp_idemttl po < 2147483648)%Z ->
+  res_ok P -> In (ch, mp_idem po) P -> nonce_ok nonce = true ->
+  step_goal U n cf rs m (MPublish ch key po nonce now_).
+Proof.
+  intros Hcf HK Hin HR Hn Hpo Hidne Httl HPok HinP Hno.
+  assert (Eid : String.eqb (mp_idem po) "" = false) by (apply String.eqb_neq; exact Hidne).
+  set (rz := if (0 <? mp_idemttl po)%Z then mp_idemttl po else default_idem_ms).
+  assert (Hrz : (0 < rz < 2147483648)%Z) by (unfold rz, default_idem_ms; destruct (0 <? mp_idemttl po)%Z eqn:E; [apply Z.ltb_lt in E|]; lia).
+  assert (Erexp : (if (0 <? mp_idemttl po)%Z then millis (mp_idemttl po) else millis default_idem_ms) = millis rz)
+    by (unfold rz; destruct (0 <? mp_idemttl po)%Z; reflexivity).
+  destruct (cfg_ok_fields cf Hcf) as (size & sttl & -> & Hsize & Hsttl). cbn [mc_size] in Hn.
+  pose proof (R_clear _ _ _ _ HR) as HR0. set (rs0 := clear_outbox rs) in *.
+  destruct (pre_state U n rs0 m ch nonce HR0 Hin Hno) as (v & g & Hviews & Hmeta & Est & Hsmc & Estr & Hg & Hgi & Hvr & Hinv).
+  set (c0 := c0_of m ch nonce) in *.
+  pose proof Hinv as (Hep & Htop & Hcontig & Hents & Hvbd).
+  pose proof (contigT_length _ _ _ Hcontig) as Hlen.
+  assert (Hglen : List.length g = List.length (ch_items c0)) by (rewrite <- Hg; rewrite map_length; reflexivity).
+  pose proof Hpo as Hpo'. unfold popts_core in Hpo'.
+  apply andb_true_iff in Hpo' as [Hpo' Hkeyopts]. apply andb_true_iff in Hpo' as [Hver Hsc].
+  apply N.ltb_lt in Hver. apply Z.leb_le in Hsc.
+  destruct (hub_add_gen (mkMC 3 0 size sttl 0 false) m ch key po nonce eq_refl) as (m1 & Hch1 & Hid1 & Hnw1 & Hadd).
+  { fold c0. cbn [mc_size]. lia. }
+  fold c0 in Hch1, Hadd.
+  assert (Htb : (ch_top c0 + 1 < BOUND)%N) by (unfold C18Stream.BOUND; lia).
+  assert (Htb64 : (ch_top c0 < 18446744073709551616)%N) by (unfold C18Stream.BOUND in Htb; lia).
+  assert (Hszb : (Z.to_N size < 9223372036854775808)%N) by lia.
+  pose proof (stream_cond_of v _ g _ _ Estr Hg Hcontig) as Hscond.
+  pose proof (wipe_cond_of v _ Hsmc) as Hwc.
+  pose proof (R_cache _ _ _ _ HR0 ch (mp_idem po) HinP) as Hcache. pose proof (R_now _ _ _ _ HR0) as Hnow0.
+  unfold step_goal. unfold rm_step. fold rs0. unfold rm_publish.
+  cbn [is_ephemeral mc_mode N.eqb Pos.eqb andb]. cbv iota.
+  unfold publish_keys, publish_args. cbn [is_ephemeral has_stream mc_mode mc_keyttl mc_size mc_sttl mc_mttl mc_ordered N.eqb Pos.eqb].
+  rewrite Eid. cbn [andb negb Z.ltb Z.compare orb]. unfold idem_expire. rewrite Eid, Erexp.
+  change (millis 0) with "0". rewrite (zdec_nonneg size) by lia.
+  cbn [ms_add map_shallow].
+  cbn [mm_step]. unfold mm_publish. cbn [is_ephemeral mc_mode N.eqb Pos.eqb andb]. rewrite Eid. unfold idem_get. rewrite Hnow0.
+  unfold cache_rel in Hcache.
+  destruct (sfind (idem_key ch (mp_idem po)) (mm_idem m)) as [[[coff cep] cexp]|] eqn:Ecache.
+  { (* cached result *)
+    destruct Hcache as (Hexp0 & Hcoff & Hcres).
+    replace (cexp <=? 0)%N with false by (symmetry; apply N.leb_gt; exact Hexp0).
+    assert (Hic : idem_cond (k_result ch (mp_idem po)) (millis rz) = true).
+    { unfold idem_cond. rewrite millis_pos by lia. rewrite dec_eqb_empty. reflexivity. }
+    assert (Hrun : forall K A, (exists rest, sh_map_add K A = (dom now <- num_of (dec now_) ;;
+                                   dom hit <- idem_check (k_result ch (mp_idem po)) (millis rz) ;;
+                                   match hit with
+                                   | Some (o, ep0) => finish (RArr [o; RBulk ep0; RBulk "idempotency"])
+                                   | None => rest now
+                                   end)) ->
+               runM (sh_map_add K A) rs0 = (rs0, RArr [RBulk (dec coff); RBulk cep; RBulk "idempotency"])).
+    { intros K A [rest ->]. apply (idem_hit_run (ret RNil)); [exact Hic | exact Hcres | eexists; apply num_of_dec_any]. }
+    rewrite Hrun.
+    2:{ unfold utoa. destruct key as [|kc key].
+        - cbn [String.eqb] in Hkeyopts. apply andb_true_iff in Hkeyopts as [Hko HexpN]. apply andb_true_iff in Hko as [Hv0 Hmode0].
+          apply String.eqb_eq in Hmode0. apply N.eqb_eq in Hv0. destruct (mp_exp po); [discriminate|]. rewrite Hmode0, Hv0.
+          cbn [String.eqb negb andb N.ltb N.compare]. eexists. rewrite core_unkeyed_i_eq. reflexivity.
+        - cbn [String.eqb negb andb]. eexists. rewrite core_keyed3_i_eq. reflexivity. }
+    eexists. eexists. eexists. split; [reflexivity|]. split.
+    - f_equal. unfold parse_add_result. cbn [as_arr List.length Nat.ltb Nat.leb nth as_u64 to_str].
+      unfold C18Stream.BOUND in Hcoff. rewrite parse_u64_map_dec by lia. reflexivity.
+    - apply R_clear. apply (R_mono U n); [lia | exact HR0]. }
+  assert (Hres : res_view rs0 (k_result ch (mp_idem po)) None) by exact Hcache.
+  destruct key as [|kc key].
+  - (* unkeyed *)
+    cbn [String.eqb] in Hkeyopts. apply andb_true_iff in Hkeyopts as [Hkeyopts Hexp]. apply andb_true_iff in Hkeyopts as [Hv0 Hmode].
+    apply String.eqb_eq in Hmode. apply N.eqb_eq in Hv0.
+    destruct (mp_exp po) eqn:Eexp; [discriminate|]. rewrite Hmode, Hv0. cbn [N.ltb N.compare]. unfold utoa.
+    cbn [String.eqb negb andb] in Hadd |- *. destruct Hadd as (m' & Hadd & Hch & Hid' & Hnw').
+    rewrite core_unkeyed_i_eq.
+    destruct (core_unkeyed_i_spec rs0 ch (pb "" (mp_data po) false (mp_score po)) (Z.to_N size) sttl nonce now_ v
+                (ch_epoch c0) (ch_top c0) (map (genc (ch_epoch c0)) g) (k_result ch (mp_idem po)) rz
+                Hviews Hmeta Hscond Htb Hszb Hsttl Hres (k_result_not_chan _ _ _) (k_result_ne _ _) Hrz)
+      as (st' & mh' & Hrun & Hv' & Hh' & Hres' & Hfr).
+    rewrite Hrun. rewrite parse_add_ok by (unfold C18Stream.BOUND in Htb; lia).
+    rewrite Hadd. unfold touch_exp, idem_save. cbn [mc_keyttl Z.ltb Z.compare andb]. rewrite Eid.
+    eexists. eexists. eexists. split; [reflexivity|]. split; [reflexivity|].
+    eapply (R_update_idem U n (n + 1) rs0 m _ _ ch (mp_idem po) _ (ch_top c0 + 1) (ch_epoch c0) _ HK HPok Hin HinP HR0);
+      [lia | | exact Hch | | | cbn [mm_idem fst snd]; rewrite Hid'; reflexivity | cbn [mm_now]; exact Hnw'
+       | rewrite Hnw', Hnow0; destruct (Z.eqb_spec (mp_idemttl po) 0); unfold default_idem_ms; lia | exact Htb
+       | apply (res_view_frame st'); [intros; apply getk_clear_outbox | exact Hres']].
+    + eapply frame_trans; [exact Hfr | apply frame_clear].
+    + apply (chan_rel_frame st'); [intros; apply getk_clear_outbox|].
+      unfold state_after. cbn [String.eqb].
+      apply (chan_rel_after st' ch (ch_epoch c0) (ch_top c0) g mh' (rv_state v) (rv_smeta v) (ch_items c0) (ch_state c0)
+               ((ch_top c0 + 1)%N, "", mp_data po, false) (mp_score po) (Z.of_N (Z.to_N size)));
+        try assumption; try reflexivity. lia.
+    + intros c' E. injection E as <-. unfold chan_inv. cbn [ch_epoch ch_top ch_items ch_state].
+      split; [assumption|]. split; [lia|]. split; [apply contigT_snoc; [assumption | reflexivity]|].
+      unfold state_after. cbn [String.eqb]. split; assumption.
+  - (* keyed *)
+    cbn [String.eqb] in Hkeyopts.
+    assert (Hexp : exp_ok (mp_exp po)).
+    { unfold exp_okb in Hkeyopts. unfold exp_ok. destruct (mp_exp po) as [[eo ee]|]; [|exact I].
+      apply andb_true_iff in Hkeyopts as [A B]. apply negb_true_iff in A. apply String.eqb_neq in A. apply N.ltb_lt in B. split; assumption. }
+    cbn [String.eqb negb andb] in Hadd |- *.
+    change (match mp_exp po with Some (eo, _) => utoa eo | None => "" end) with (exp_off (mp_exp po)).
+    change (match mp_exp po with Some (_, ee) => ee | None => "" end) with (exp_epoch (mp_exp po)).
+    change (if (0 <? mp_ver po)%N then utoa (mp_ver po) else "0") with (vstr (mp_ver po)).
+    rewrite andb_true_r.
+    change (if (0 <? mp_ver po)%N then "v:" ++ String kc key else "") with (vfld (mp_ver po) (String kc key)).
+    change (if (0 <? mp_ver po)%N then "ve:" ++ String kc key else "") with (vefld (mp_ver po) (String kc key)).
+    unfold utoa at 1. rewrite core_keyed3_i_eq.
+    pose proof (core_keyed3_i_spec rs0 ch kc key (pb (String kc key) (mp_data po) false (mp_score po)) (Z.to_N size) sttl nonce now_
+                  (mp_delta po) v (ch_epoch c0) (ch_top c0) (map (genc (ch_epoch c0)) g) (ch_state c0) (mp_mode po) (mp_exp po)
+                  (mp_ver po) (mp_vep po) (k_result ch (mp_idem po)) rz
+                  Hviews Hmeta Hscond Hwc Est Hents Hvr Hvbd Hver Htb Hszb Hsttl Hexp Hres (k_result_not_chan _ _ _) (k_result_ne _ _) Hrz) as Hspec.
+    cbv zeta in Hspec.
+    destruct (ver_dec (mp_ver po) (mp_vep po) (sfind (String kc key) (ch_state c0))) eqn:Evd.
+    { (* suppressed by the version *)
+      destruct Hspec as (st1 & h1 & Hrun & Vm1 & Hh1 & F1).
+      rewrite Hrun, Hadd. rewrite parse_add_supp3 by (first [exact Htb64 | left; reflexivity]).
+      unfold touch_exp. cbn [mc_keyttl Z.ltb Z.compare andb].
+      eexists. exists m1. eexists. split; [reflexivity|]. split; [reflexivity|].
+      apply (R_after_suppress U n rs0 m st1 m1 ch nonce h1 v g); assumption. }
+    destruct (km_decision (mp_mode po) (is_some (sfind (String kc key) (ch_state c0)))) as [r|] eqn:Ekm.
+    { (* suppressed by the key mode *)
+      destruct Hspec as (st1 & h1 & Hrun & Vm1 & Hh1 & F1).
+      rewrite Hrun, Hadd. rewrite parse_add_supp3 by (first [exact Htb64 | right; eapply km_decision_reason; eassumption]).
+      unfold touch_exp. cbn [mc_keyttl Z.ltb Z.compare andb].
+      eexists. exists m1. eexists. split; [reflexivity|]. split; [reflexivity|].
+      apply (R_after_suppress U n rs0 m st1 m1 ch nonce h1 v g); assumption. }
+    destruct (cas_dec (ch_epoch c0) (mp_exp po) (sfind (String kc key) (ch_state c0))) as [cp|] eqn:Ecas.
+    { (* position mismatch *)
+      destruct Hspec as (st1 & h1 & Hrun & Vm1 & Hh1 & F1).
+      rewrite Hrun, Hadd.
+      rewrite (parse_add_mismatch (ch_top c0) (ch_epoch c0) (String kc key) (sfind (String kc key) (ch_state c0)) Htb64 Hep).
+      2:{ destruct (sfind (String kc key) (ch_state c0)) as [e|] eqn:Ek; [|exact I]. apply (Hents (String kc key, e)). apply in_sfind. exact Ek. }
+      rewrite <- (cas_dec_cp _ _ _ _ Ecas).
+      unfold touch_exp. cbn [mc_keyttl Z.ltb Z.compare andb].
+      eexists. exists m1. eexists. split; [reflexivity|]. split; [reflexivity|].
+      apply (R_after_suppress U n rs0 m st1 m1 ch nonce h1 v g); assumption. }
+    (* accepted *)
+    destruct Hspec as (st' & mh' & Hrun & Hv' & Hh' & Hres' & Hfr).
+    destruct Hadd as (m' & Hadd & Hch & Hid' & Hnw').
+    rewrite Hrun, Hadd. rewrite parse_add_ok by (unfold C18Stream.BOUND in Htb; lia).
+    unfold touch_exp, idem_save. cbn [mc_keyttl Z.ltb Z.compare andb]. rewrite Eid.
+    eexists. eexists. eexists. split; [reflexivity|]. split; [reflexivity|].
+    set (cur := sfind (String kc key) (ch_state c0)) in *.
+    set (e' := mkME (ch_top c0 + 1) (mp_data po) (mp_score po) (ver_after (mp_ver po) cur) (vep_after (mp_ver po) (mp_vep po) cur)).
+    eapply (R_update_idem U n (n + 1) rs0 m _ _ ch (mp_idem po) _ (ch_top c0 + 1) (ch_epoch c0) _ HK HPok Hin HinP HR0);
+      [lia | | exact Hch | | | cbn [mm_idem fst snd]; rewrite Hid'; reflexivity | cbn [mm_now]; exact Hnw'
+       | rewrite Hnw', Hnow0; destruct (Z.eqb_spec (mp_idemttl po) 0); unfold default_idem_ms; lia | exact Htb
+       | apply (res_view_frame st'); [intros; apply getk_clear_outbox | exact Hres']].
+    + eapply frame_trans; [exact Hfr | apply frame_clear].
+    + apply (chan_rel_frame st'); [intros; apply getk_clear_outbox|].
+      unfold state_after. cbn [String.eqb].
+      apply (chan_rel_after st' ch (ch_epoch c0) (ch_top c0) g mh'
+               (Some (sput (String kc key) (state_value (Z.of_N (ch_top c0 + 1)) (ch_epoch c0) (pb (String kc key) (mp_data po) false (mp_score po)))
+                           (hash_or_empty (rv_state v))))
+               (Some (smeta_after_state (round53 (Z.of_N now_)) (ch_epoch c0)
+                        (smeta_after_ver (mp_ver po) (mp_vep po) (String kc key) (hash_or_empty (rv_smeta v)))))
+               (ch_items c0) (sput (String kc key) e' (ch_state c0))
+               ((ch_top c0 + 1)%N, String kc key, mp_data po, false) (mp_score po) (Z.of_N (Z.to_N size)));
+        try assumption; try reflexivity; try lia.
+      * rewrite state_view_some by apply sput_nonempty. rewrite Est, state_view_hash.
+        rewrite state_value_small by (unfold C18Stream.BOUND in Htb; exact Htb).
+        rewrite <- sput_enc_s. reflexivity.
+      * right. eexists. split; [reflexivity | apply sfind_epoch_after_state].
+      * cbn [hash_or_empty]. unfold e', cur. apply ver_rel_publish. exact Hvr.
+    + intros c' E. injection E as <-. unfold chan_inv. cbn [ch_epoch ch_top ch_items ch_state].
+      split; [assumption|]. split; [lia|]. split; [apply contigT_snoc; [assumption | reflexivity]|].
+      unfold state_after. cbn [String.eqb].
+      split; intros kv Hkv; apply in_sput in Hkv as [->|Hkv]; try (first [apply Hents | apply Hvbd]; assumption).
+      * cbn [snd]. unfold entry_ok, e'. cbn [me_off me_score]. unfold C18Stream.BOUND in Htb. split; [exact Htb | assumption].
+      * cbn [snd]. unfold e'. cbn [me_ver]. unfold ver_after. destruct (mp_ver po =? 0)%N; [|exact Hver].
+        destruct cur as [e|] eqn:Ek; [|lia]. apply (Hvbd (String kc key, e)). apply in_sfind. exact Ek.
+Qed.
+
 Lemma in_sdel {A} k (l : list (string * A)) kv : In kv (sdel k l) -> In kv l.
 Proof.
   induction l as [|[k' v'] l IH]; cbn [sdel]; [auto|].
@@ -624,11 +841,6 @@ Proof.
   intros [<-|H]; [left; reflexivity | right; apply IH; assumption].
 Qed.
 
-Lemma R_mono U n n' rs m : (n <= n')%N -> R U n rs m -> R U n' rs m.
-Proof.
-  intros Hn HR. constructor; [apply (R_chan _ _ _ _ HR)| |apply (R_cleanup _ _ _ _ HR)|apply (R_now _ _ _ _ HR)|apply (R_cache _ _ _ _ HR)].
-  intros ch c E. apply (chan_inv_mono n); [assumption | apply (R_inv _ _ _ _ HR ch c E)].
-Qed.
 
 Lemma step_remove U n cf rs m ch key ro nonce now_ c :
   cfg_ok cf = true -> keys_ok U -> In ch U -> R U n rs m -> (Z.of_N n < mc_size cf)%Z ->
@@ -949,13 +1161,22 @@ Proof.
 Qed.
 
 (* ================= the whole run ================= *)
-Lemma step_ok U n cf rs m o :
-  cfg_ok cf = true -> keys_ok U -> (forall ch, In ch (op_chan o) -> In ch U) -> R U n rs m ->
-  (Z.of_N n < mc_size cf)%Z -> op_ok m o = true -> step_goal U n cf rs m o.
+Lemma step_ok U n cf ai rs m o :
+  cfg_ok cf = true -> keys_ok U -> res_ok P -> (ai = false -> P = []) ->
+  (forall ch, In ch (op_chan o) -> In ch U) -> (forall p, In p (op_idem o) -> In p P) -> R U n rs m ->
+  (Z.of_N n < mc_size cf)%Z -> op_ok ai m o = true -> step_goal U n cf rs m o.
 Proof.
-  intros Hcf HK Hin HR Hn Hok. destruct o as [ch key po nonce now_|ch key ro nonce now_|ch rev_ limit key asc nr nm|ch since limit reverse nr nm|ch|ms|cnow cnode|sch];
+  intros Hcf HK HPok Hai Hin HinP HR Hn Hok. destruct o as [ch key po nonce now_|ch key ro nonce now_|ch rev_ limit key asc nr nm|ch since limit reverse nr nm|ch|ms|cnow cnode|sch];
     cbn [op_ok] in Hok; try discriminate Hok.
-  - apply andb_true_iff in Hok as [H1 H2]. apply step_publish; try assumption. apply Hin. left. reflexivity.
+  - apply andb_true_iff in Hok as [H1 H2]. unfold popts_ok in H1. apply andb_true_iff in H1 as [Hi Hc].
+    assert (HinU : In ch U) by (apply Hin; left; reflexivity).
+    destruct (String.eqb (mp_idem po) "") eqn:Eid.
+    + apply String.eqb_eq in Eid. apply step_publish_plain; assumption.
+    + unfold idem_okb in Hi. rewrite Eid in Hi. cbn [orb] in Hi.
+      apply andb_true_iff in Hi as [Hi Hu]. apply andb_true_iff in Hi as [_ Hl]. apply Z.leb_le in Hl. apply Z.ltb_lt in Hu.
+      apply String.eqb_neq in Eid.
+      apply step_publish_idem; try assumption; [lia|].
+      apply HinP. cbn [op_idem]. apply String.eqb_neq in Eid. rewrite Eid. left. reflexivity.
   - apply andb_true_iff in Hok as [H1 H3]. apply andb_true_iff in H1 as [H1 H2].
     destruct (sfind ch (mm_chans m)) as [c|] eqn:Ec; [|discriminate].
     apply (step_remove U n cf rs m ch key ro nonce now_ c); try assumption.
@@ -972,23 +1193,25 @@ Proof.
     apply step_read_stream; try assumption.
     + apply Hin. left. reflexivity.
     + destruct (sfind ch (mm_chans m)) as [c|]; [exact H4|]. destruct since; [discriminate | reflexivity].
-  - apply step_clear; try assumption. apply Hin. left. reflexivity.
+  - apply step_clear; try assumption; [apply Hin; left; reflexivity|]. apply Hai. apply negb_true_iff in Hok. exact Hok.
 Qed.
 
-Lemma run_agree U cf : cfg_ok cf = true -> keys_ok U -> forall ops n rs m,
-  (forall ch, In ch (chans ops) -> In ch U) -> R U n rs m ->
-  (Z.of_N n + Z.of_nat (List.length ops) <= mc_size cf)%Z -> run_ok cf m ops = true ->
+Lemma run_agree U cf ai : cfg_ok cf = true -> keys_ok U -> res_ok P -> (ai = false -> P = []) -> forall ops n rs m,
+  (forall ch, In ch (chans ops) -> In ch U) -> (forall p, In p (idems ops) -> In p P) -> R U n rs m ->
+  (Z.of_N n + Z.of_nat (List.length ops) <= mc_size cf)%Z -> run_ok cf ai m ops = true ->
   rm_run map_shallow cf rs ops = mm_run cf m ops.
 Proof.
-  intros Hcf HK. induction ops as [|o ops IH]; intros n rs m Hin HR Hn Hok; [reflexivity|].
+  intros Hcf HK HPok Hai. induction ops as [|o ops IH]; intros n rs m Hin HinP HR Hn Hok; [reflexivity|].
   cbn [run_ok] in Hok. apply andb_true_iff in Hok as [Ho Hrest].
   cbn [List.length] in Hn.
-  destruct (step_ok U n cf rs m o Hcf HK) as (rs' & m' & res & Hr & Hm & HR'); try assumption.
+  destruct (step_ok U n cf ai rs m o Hcf HK HPok Hai) as (rs' & m' & res & Hr & Hm & HR'); try assumption.
   - intros ch Hc. apply Hin. unfold chans. cbn [flat_map]. apply in_or_app. left. assumption.
+  - intros p Hp. apply HinP. unfold idems. cbn [flat_map]. apply in_or_app. left. assumption.
   - lia.
   - cbn [rm_run mm_run]. rewrite Hr, Hm. f_equal. rewrite Hm in Hrest. cbn [fst] in Hrest.
     apply (IH (n + 1)%N); try assumption.
     + intros ch Hc. apply Hin. unfold chans. cbn [flat_map]. apply in_or_app. right. assumption.
+    + intros p Hp. apply HinP. unfold idems. cbn [flat_map]. apply in_or_app. right. assumption.
     + lia.
 Qed.
 
@@ -998,13 +1221,31 @@ Proof.
   - intros ch _. cbn [mm_init mm_chans sfind chan_rel]. intros k _. reflexivity.
   - intros ch c H. discriminate H.
   - reflexivity.
+  - reflexivity.
+  - intros ch k _. reflexivity.
 Qed.
 
-Theorem agree_core cf ops :
-  cfg_ok cf = true -> keys_okb (chans ops) = true -> (Z.of_nat (List.length ops) <= mc_size cf)%Z ->
-  run_ok cf mm_init ops = true ->
+End WithPairs.
+
+Lemma run_ok_no_idems cf ops : forall m, run_ok cf false m ops = true -> idems ops = [].
+Proof.
+  induction ops as [|o ops IH]; intros m H; [reflexivity|]. cbn [run_ok] in H. apply andb_true_iff in H as [Ho Hr].
+  unfold idems. cbn [flat_map]. fold (idems ops). rewrite (IH _ Hr), app_nil_r.
+  destruct o; try reflexivity. cbn [op_ok] in Ho. apply andb_true_iff in Ho as [Ho _]. unfold popts_ok in Ho.
+  apply andb_true_iff in Ho as [Ho _]. unfold idem_okb in Ho. cbn [andb] in Ho. rewrite orb_false_r in Ho.
+  cbn [op_idem]. rewrite Ho. reflexivity.
+Qed.
+
+(* [ai = true]: Publish may carry idempotency keys and the run contains no Clear; [ai = false]: Clear is allowed and no
+   operation carries an idempotency key (a result cached before a Clear survives it on Redis only: finding
+   map-clear-idempotency) *)
+Theorem agree_core cf ops ai :
+  cfg_ok cf = true -> keys_okb (chans ops) = true -> res_okb (idems ops) = true ->
+  (Z.of_nat (List.length ops) <= mc_size cf)%Z ->
+  run_ok cf ai mm_init ops = true ->
   rm_run map_shallow cf rinit ops = mem_map_run cf ops.
 Proof.
-  intros Hcf HK Hlen Hok. unfold mem_map_run.
-  apply (run_agree (chans ops) cf Hcf (keys_okb_sound _ HK) ops 0%N); [auto | apply R_init | lia | assumption].
+  intros Hcf HK HP Hlen Hok. unfold mem_map_run.
+  assert (Hai : ai = false -> idems ops = []) by (intros ->; eapply run_ok_no_idems; eassumption).
+  apply (run_agree (idems ops) (chans ops) cf ai Hcf (keys_okb_sound _ HK) (res_okb_sound _ HP) Hai ops 0%N); [auto | auto | apply R_init | lia | assumption].
 Qed.
